@@ -427,6 +427,7 @@ def _run(ctx, tmp, nevrun):
     failing = {}          # key -> (case, kind, detail)
     distinct = set()
     img_bad, img_n, unm_bad, unm_n, dec_bad, dec_n = None, 0, None, 0, None, 0
+    ret_bad, ret_n, ret_nil_n = None, 0, 0
     compile_errors = []
     for c in cases:
         o = res.get(c.cid)
@@ -464,6 +465,22 @@ def _run(ctx, tmp, nevrun):
         if o is None:
             continue
         # by-value struct images received by the callee  vs  the model's marshal image
+        # marshal_ret_iff_nil: the model's `ret` of _record_value for every non-nil record argument
+        # (= contains_nil, by the theorem) predicts whether the real call must end in ffi_fail
+        for i, (t, a) in enumerate(zip(c.params, c.args)):
+            if ffigen.is_rec(t) and a is not None and c.libmode == "ok":
+                mp = per_case[c.cid].get("M%d" % i, "").split(" ")
+                if len(mp) == 3:
+                    ret_n += 1
+                    model_ret = mp[1] == "1"
+                    got_fail = o.lines[:1] == ["@FFI_FAIL"]
+                    entered = any(l.startswith("@C ") for l in o.lines)
+                    if model_ret:
+                        ret_nil_n += 1
+                    if (model_ret != ffigen.contains_nil(t, a) or (model_ret and (not got_fail or entered))) and ret_bad is None:
+                        ret_bad = {"case": c.to_json(), "param": i, "model_record_value_ret": int(model_ret),
+                                   "value_contains_nil": ffigen.contains_nil(t, a), "code_raised_ffi_fail": got_fail,
+                                   "callee_entered": entered, "transcript": o.lines[:6], "status": o.status}
         libffi_damage = ffigen.last_gpr_int_sse_struct(c.params, c.ret)   # image is what libffi delivered
         for i, (t, a) in enumerate(zip(c.params, c.args)):
             if ffigen.is_rec(t) and a is not None and str(i) in o.images and not libffi_damage:
@@ -504,6 +521,8 @@ def _run(ctx, tmp, nevrun):
         ctx.correspondence_broken("unmarshal-model-vs-gcc", unm_bad)
     if dec_bad:
         ctx.correspondence_broken("ffi_fail-decision-model-vs-code", dec_bad)
+    if ret_bad:
+        ctx.correspondence_broken("marshal_ret_iff_nil-model-vs-code", ret_bad)
     if compile_errors:
         ctx.correspondence_broken("generated-program-rejected-by-the-compiler", compile_errors[0])
 
@@ -549,19 +568,21 @@ def _run(ctx, tmp, nevrun):
     timing["shrink_s"] = round(time.time() - t0, 1)
 
     # ---- evidence -------------------------------------------------------------------------------
-    n_eval = len(cases) + n_lay + img_n + unm_n + dec_n
+    n_eval = len(cases) + n_lay + img_n + unm_n + dec_n + ret_n
     ctx.count(evaluations=n_eval, nontrivial=len(distinct))
     ctx.coverage["rule"] = (
         "layout: complete enumeration (see layout_exhaustive), non-trivial = shape with padding. calls: corpus first, "
         "then generated families (scalars of every arity, position sweep, register pressure, by-value struct args/returns "
         "of every size 1..40 bytes, small structs under register pressure, nested structs, missing lib/symbol, nil "
-        "string / nil record at every level); non-trivial = distinct (signature, values) whose transcript was exactly "
+        "string / nil record at every level, and — enumerated, not sampled — every placement of a nil string field / nil "
+        "nested record before, after and between non-nil nested records inside one record argument at depth <= 3); non-trivial = distinct (signature, values) whose transcript was exactly "
         "the required one (callee entered with exact values in declared positions and exact result read back, or "
         "ffi_fail raised without a call).")
     ctx.coverage["calls"] = {
         "cases": len(cases), "corpus_cases": len(corpus), "generated": len(gen),
         "record_types_checked_against_gcc": n_lay, "struct_images_vs_model": img_n,
         "returned_struct_images_unmarshalled_by_model": unm_n, "decision_cases_vs_model": dec_n,
+        "record_value_ret_vs_model(marshal_ret_iff_nil)": {"record_arguments": ret_n, "with_nil_inside(ret=1)": ret_nil_n},
         "tree_decision_variant": "accumulate (prep_vals |=)" if acc_tree else "assign (prep_vals =), see nil_arg_is_ffi_fail_refuted",
         "arity_histogram": dict(sorted(stats["arity"].items())),
         "families": dict(stats["family"]),
